@@ -29,10 +29,12 @@ def cases(tier, seed):
                     out.append(dict(kind="nonstatio", dim=1, n=n, b=b, nb=2, bb=2, nt=n + 1, bt=b, box=box, tbox=box,
                                     method=method, seed=k, draws=draws(n + 1, b)))
                 for (n, b, nbf, bb) in ((4, 2, 3, 2), (9, 4, 2, 1), (16, 16, 4, 4)):
+                    # rectangles: the second coordinate has its own (disjoint from the first) bounds in every other case
+                    boxy = dict(boxy=BOXES[(bi + 2) % 4]) if (n + ki) % 2 == 0 else {}
                     out.append(dict(kind="statio", dim=2, n=n, b=b, nb=4 * nbf, bb=bb, box=box, method=method, seed=k,
-                                    draws=max(draws(n, b), draws(nbf, bb))))
-                    out.append(dict(kind="nonstatio", dim=2, n=n, b=b, nb=4 * nbf, bb=bb, nt=5, bt=2, box=box, tbox=box,
-                                    method=method, seed=k, draws=max(draws(n, b), draws(nbf, bb))))
+                                    draws=max(draws(n, b), draws(nbf, bb)), **boxy))
+                    out.append(dict(kind="nonstatio", dim=2, n=n, b=b, nb=4 * nbf, bb=bb, nt=5, bt=2, box=box, tbox=BOXES[(bi + 1) % 4],
+                                    method=method, seed=k, draws=max(draws(n, b), draws(nbf, bb)), **boxy))
                     out.append(dict(kind="statio", dim=2, n=n, b=b, nb=None, bb=None, box=box, method=method, seed=k, draws=2))
                 out.append(dict(kind="nonstatio", dim=2, n=4, b=2, nb=8, bb=2, nt=6, bt=2, cart=False, box=box, tbox=box,
                                 method=method, seed=k, draws=5))
@@ -50,11 +52,13 @@ def cases(tier, seed):
         for bi, box in enumerate(BOXES):
             if quick and (r + bi) % 2:
                 continue
-            out.append(dict(kind="statio", dim=2, n=r * r, b=1, nb=None, bb=None, box=box, method="grid", seed=sd + r, draws=1))
+            out.append(dict(kind="statio", dim=2, n=r * r, b=1, nb=None, bb=None, box=box, method="grid", seed=sd + r, draws=1,
+                            **(dict(boxy=BOXES[(bi + 1) % 4]) if r % 2 else {})))
     # (c) uniform sampling, larger stores, many keys: closed box membership + counts
     for ki in range(nkeys * 2):
         for bi, box in enumerate(BOXES):
-            out.append(dict(kind="statio", dim=2, n=64, b=8, nb=32, bb=4, box=box, method="uniform", seed=sd + 31 * ki + bi, draws=2))
+            out.append(dict(kind="statio", dim=2, n=64, b=8, nb=32, bb=4, box=box, method="uniform", seed=sd + 31 * ki + bi, draws=2,
+                            **(dict(boxy=BOXES[(bi + 1 + ki) % 4]) if ki % 2 else {})))
             out.append(dict(kind="ode", n=64, b=8, box=box, method="uniform", seed=sd + 31 * ki + bi, draws=2))
     return out
 
